@@ -176,6 +176,39 @@ def call(fn, *a, **k):
         return ["err", err_kind(exc)]
 
 
+def deep_state(obj, depth=0, ids=True):
+    """Fingerprint of an object INCLUDING the estimators nested in it (Chain steps, Vector components): every attribute, arrays by bytes."""
+    import numpy as np
+    if isinstance(obj, np.ndarray):
+        return ("arr", obj.shape, obj.dtype.str, obj.tobytes())
+    if isinstance(obj, (list, tuple)):
+        return [deep_state(x, depth + 1, ids) for x in obj]
+    if isinstance(obj, dict):
+        return sorted((repr(k), repr(deep_state(v, depth + 1, ids))) for k, v in obj.items())
+    if hasattr(obj, "get_params") and hasattr(obj, "__dict__") and depth < 6:
+        return (type(obj).__name__, id(obj) if ids else 0, sorted((k, repr(deep_state(v, depth + 1, ids))) for k, v in obj.__dict__.items()))
+    if callable(obj) and hasattr(obj, "__name__"):
+        return "fn:" + obj.__name__
+    return repr(obj)
+
+
+def params_state(est, exempt=()):
+    """Fingerprint of the hyper-parameters (get_params(deep=True)); nested estimators by class name."""
+    import numpy as np
+
+    def fp(v):
+        if hasattr(v, "get_params"):
+            return type(v).__name__                      # its own parameters appear as <name>__<param> entries
+        if isinstance(v, np.ndarray):
+            return ("arr", v.shape, v.dtype.str, v.tobytes())
+        if isinstance(v, (list, tuple)):
+            return [fp(x) for x in v]
+        if callable(v) and hasattr(v, "__name__"):
+            return "fn:" + v.__name__
+        return repr(v)
+    return [(k, repr(fp(v))) for k, v in sorted(est.get_params(deep=True).items()) if k.split("__")[-1] not in exempt]
+
+
 # ----------------------------------------------------------------------------- Lean
 def _locked(cmd, cwd, timeout, pre=None):
     os.makedirs(WORK, exist_ok=True)
